@@ -115,6 +115,8 @@ def oracle_spec_equal(channels, kind_only_ret=True, skip_d2=False):
                 if not a.line.startswith(ch):
                     continue
                 x = ret_kind(a.line) if (ch == "ret" and kind_only_ret) else a.line
+                if ch == "ret" and x in ("ret err exists", "ret err sendFailed", "ret err io"):
+                    continue  # an I/O failure (injected), not a verdict on the call
                 if x != s:
                     fails.append((f"{ch}-differs-from-spec", {"group": i, "impl": a.line, "spec": s}))
                     return fails
@@ -1413,7 +1415,7 @@ PROPS.update({
                 explanation="drop quiesces", assumptions=OS_ASSUMPTIONS),
     "C07": dict(theorems=['c07_refines_noCache', 'c07_refinesNoCache_step', 'c07_readInv_spec', 'c07_resident_or_on_disk', 'c07_boundary_written', 'c07_read_of_inv', 'c07_inv_fresh', 'c07_inv_call', 'c07_inv_flush', 'c07_inv_worker', 'c07_inv_workerIdle', 'c07_inv_drain', 'c07_inv_reachable', 'c07_reads_partial', 'c07_worker_steps_invisible', 'c07_cache_limits_invisible'], gen=scripts_c07, project=proj_c07, oracle=oracle_c07,
                 explanation="reads independent of cache/worker", assumptions=OS_ASSUMPTIONS),
-    "C02": dict(theorems=[], gen=scripts_c02, project=proj_c02, oracle=oracle_c02,
+    "C02": dict(theorems=['c02_smApply_cache_free', 'c02_smApply_independent_of_cache', 'c02_replay_spec', 'c02_replay_fresh', 'c02_replay_call', 'c02_replay_flush', 'c02_replay_worker', 'c02_replay_workerIdle', 'c02_replay_drain', 'c02_replay_invariant', 'c02_linked_files', 'c02_restart_step', 'c02_clean_restart', 'c02_refinement_continues', 'c02_history_after_restart', 'c02_removed_needed', 'c02_cycles', 'c02_restart_refines', 'c02_cycles_refines'], gen=scripts_c02, project=proj_c02, oracle=oracle_c02,
                 explanation="clean restart equivalence", assumptions=OS_ASSUMPTIONS),
 })
 
